@@ -219,6 +219,14 @@ class SpecMixin:
             if nm == "as_int":
                 x = self.eval(n.args[0], frame)
                 return TV("int", self.as_int(x))
+            if nm == "created_here":
+                # the object was allocated by this unit's own code on this path
+                x = self.eval(n.args[0], frame)
+                v = self.to_val(x)
+                own = self.ghost.get("own_allocs", [])
+                if not own:
+                    return TV("bool", z3.BoolVal(False))
+                return TV("bool", z3.And(Val.is_ref(v), z3.Or(*[Val.a(v) == t for t in own])))
             if nm == "fresh_since_entry":
                 x = self.eval(n.args[0], frame)
                 return TV("bool", self.as_addr(x) >= self.A0)
@@ -226,6 +234,30 @@ class SpecMixin:
                 # ev(k) : k-th external/contract call event of this path (python int, may be negative)
                 k = ast.literal_eval(n.args[0])
                 return py(("event", self.trace[k]), "event")
+            if nm == "nkeys":
+                d = self.eval(n.args[0], frame)
+                return TV("int", self.hread("dklen", (self.as_addr(d),)))
+            if nm == "key_at":
+                d = self.eval(n.args[0], frame)
+                i = self.as_int(self.eval(n.args[1], frame))
+                v = self.hread("dkey", (self.as_addr(d), i))
+                return TV("val", v, "tuple" if len(n.args) > 2 else None)
+            if nm == "distinct":
+                vs = [self.to_val(self.eval(a, frame)) for a in n.args]
+                return TV("bool", z3.Distinct(*vs) if len(vs) > 1 else z3.BoolVal(True))
+            if nm == "evn":
+                # evn('name', k): k-th event with that name
+                name = n.args[0].value
+                k = ast.literal_eval(n.args[1])
+                evs = [e for e in self.trace if e["name"] == name]
+                if not (-len(evs) <= k < len(evs)):
+                    # no such event on this path: an arbitrary (unconstrained) event, so
+                    # that clauses stay total; guard them with n_calls(...)
+                    dummy = {"name": name, "callee": fresh("noev", Val), "result": fresh("noev", Val),
+                             "args": [fresh("noev", Val) for _ in range(6)], "kwargs": {},
+                             "heap_before": self.heap, "heap_after": self.heap}
+                    return py(("event", dummy), "event")
+                return py(("event", evs[k]), "event")
             if nm == "n_calls":
                 name = n.args[0].value if n.args else None
                 return TV("int", z3.IntVal(len([e for e in self.trace if name is None or e["name"] == name])))
@@ -247,11 +279,13 @@ class SpecMixin:
             fr.vars[nm] = TV(sort, j)
         outer = self.spec_side
         self.spec_side = []
+        self._in_quant = getattr(self, "_in_quant", 0) + 1
         try:
             body = self.truthy(self.eval(lam.body, fr))
             inner = self.spec_side
         finally:
             self.spec_side = outer
+            self._in_quant -= 1
         dep, indep = [], []
         for f in inner:
             (dep if any(mentions(f, j) for j in js) else indep).append(f)
@@ -259,11 +293,22 @@ class SpecMixin:
         rng = []
         if lo is not None:
             rng = [z3.And(lo <= js[0], js[0] < hi)]
+        # side facts that mention the bound variable are valid facts (frame
+        # instances, definitional unfoldings, schema types): hypotheses when the
+        # clause is to be proved, extra conjuncts when it is assumed
+        assume = getattr(self, "spec_mode", "prove") == "assume"
         if kind == "forall":
-            ant = rng + dep
-            b = z3.Implies(z3.And(*ant), body) if ant else body
+            if assume:
+                b = z3.And(*(dep + [body])) if dep else body
+                b = z3.Implies(z3.And(*rng), b) if rng else b
+            else:
+                ant = rng + dep
+                b = z3.Implies(z3.And(*ant), body) if ant else body
             return TV("bool", z3.ForAll(js, b))
-        b = z3.And(*(rng + dep + [body]))
+        if assume:
+            b = z3.And(*(rng + dep + [body]))
+        else:
+            b = z3.And(*(rng + [z3.Implies(z3.And(*dep), body) if dep else body]))
         return TV("bool", z3.Exists(js, b))
 
     def spec_fn(self, sf, args):
@@ -284,7 +329,12 @@ class SpecMixin:
                 raws.append(self.to_val(a))
         rs = {"int": core.IntS, "str": core.StrS, "bool": core.BoolS}.get(sf.ret, Val)
         hargs = []
-        if sf.heap:
+        if sf.reads:
+            # frame rule of a heap-dependent spec function: it is a function of
+            # the versions of the footprints it reads (see heap.py)
+            for nm in sf.reads:
+                hargs.append(self.heap.version(nm))
+        elif sf.heap:
             for hf in ("fld", "has"):
                 hargs.append(self.heap.cur[hf])
         f = z3.Function("spec_" + sf.name, *[x.sort() for x in hargs], *sorts, rs)
@@ -292,7 +342,7 @@ class SpecMixin:
         rk = sf.ret if sf.ret in ("int", "str", "bool") else "val"
         res = TV(rk, t, None if rk != "val" else (sf.ret if sf.ret not in ("any", "val") else None))
         depth = getattr(self, "_unfold_depth", 0)
-        if sf.defn is not None and depth < sf.unfold:
+        if sf.defn is not None and depth < sf.unfold and not getattr(self, "_in_quant", 0):
             self._unfold_depth = depth + 1
             try:
                 fr = Frame()
